@@ -117,8 +117,12 @@ func plainLen(s []byte, keys []string, utf bool) (int, string) {
 		if !utf {
 			return 1, "char8"
 		}
-		if r, n := utf8.DecodeRune(s); r != utf8.RuneError && n > 1 {
+		r, n := utf8.DecodeRune(s)
+		if r != utf8.RuneError && n > 1 {
 			return n, fmt.Sprintf("utf8-%d", n)
+		}
+		if n == 3 {
+			return 0, "" // a well-formed U+FFFD: the statement does not say whether the replacement character is input
 		}
 		return 1, "invalid"
 	}
@@ -232,7 +236,30 @@ func swallowOracle(ti *terminfo.Terminfo, cs string, w, hh int, fs []feed) ([]h.
 	for _, t := range toks {
 		single = append(single, feed{t.b, true})
 	}
-	_, each, eleft := runFeeds(ti, cs, w, hh, single)
+	eobs, each, eleft := runFeeds(ti, cs, w, hh, single)
+	// a recognised sequence yields its own event and nothing else (it consumes exactly its bytes)
+	for i, t := range toks {
+		want := ""
+		switch t.kind {
+		case "focus":
+			want = "F."
+		case "sgr", "x11":
+			want = "M."
+		case "ascii":
+			want = fmt.Sprintf("K.256.%d.", t.b[0])
+			if t.b[0] == 0x7f {
+				want = "K.127."
+			}
+		}
+		if want == "" {
+			continue
+		}
+		evs := strings.SplitN(eobs[i], "/", 2)[0]
+		if strings.Contains(evs, ",") || !strings.HasPrefix(evs, want) {
+			return []h.Finding{{Class: "sequence-miscounted", Msg: fmt.Sprintf("%s sequence %s (%s) fed on its own with the timeout decodes to %s, want exactly one %s event",
+				activeParsers(ti), h.Hex(t.b), t.kind, eobs[i], want)}}, tags
+		}
+	}
 	if strings.Join(whole, ",") == strings.Join(each, ",") && wleft == eleft {
 		return nil, tags
 	}
@@ -362,7 +389,7 @@ func genParseChunk(g *h.Gen) {
 	for _, name := range rotatingEntries(g, 6) {
 		ti := entries()[name]
 		keys := entryKeySeqs(ti)
-		for i := 0; i < g.N(90, 1200); i++ {
+		for i := 0; i < g.N(90, 500); i++ {
 			toks := cTokens(g, ti, keys)
 			var s []byte
 			for k := g.R.Range(1, 4); k > 0; k-- {
@@ -380,7 +407,7 @@ func genParseChunk(g *h.Gen) {
 	}
 	// (d) random bytes, uniform and from the alphabet of the escape sequences
 	alpha := []byte("\x1b\x1b\x1b[[<;;MmOI]52c;\a\\0123456789~AB=\x9b\xc3\xa9\xe2\x82\xac\xff\x00\x7f")
-	for i := 0; i < g.N(1500, 200000); i++ {
+	for i := 0; i < g.N(1500, 60000); i++ {
 		n := g.R.Range(1, 14)
 		b := make([]byte, n)
 		for j := range b {
